@@ -203,10 +203,12 @@ Definition sum_of_discrete_uniforms_pmf (n : pv) (lo hi : Z) : res (list (Z * Q)
   if negb (is_integer n) then Err ValueError else
   match n with PInt z => Ok (du_sum_pmf (Z.to_nat z) lo hi) | _ => Err TypeError end.
 
-(* Irwin-Hall cdf, the alternating-sum closed form exactly as coded (no clamping) *)
-Definition irwin_hall_cdf (x : Q) (n : nat) : Q :=
+(* Irwin-Hall cdf: the alternating-sum closed form [ih_formula]; the code returns 0 / 1 outside the support (0, n) first *)
+Definition ih_formula (x : Q) (n : nat) : Q :=
   qsum (map (fun k => (if Nat.even k then 1 else -1) * inject_Z (binom n k) * qpow (x - qnat k) n)
             (seq 0 (Z.to_nat (Qfloor x + 1)))) / inject_Z (zfact n).
+Definition irwin_hall_cdf (x : Q) (n : nat) : Q :=
+  if qleb x 0 then 0 else if qleb (qnat n) x then 1 else ih_formula x n.
 Definition scu_cdf (n : nat) (lo hi x : Q) : Q :=
   if qltb x (qnat n * lo) then 0 else if qltb (qnat n * hi) x then 1
   else irwin_hall_cdf ((x - qnat n * lo) / (hi - lo)) n.
